@@ -1,7 +1,7 @@
 (* C18 — a truncated GDSII file is never read as complete.
    Theorem-only file.  The theorems hold for EVERY per-record semantics `step` of the common reader
    loop, hence for the full loader, the raw-cell loader, the summary, and the unit / timestamp queries. *)
-Require Import Base GdsFrame GdsFrameProofs Generated.
+Require Import Base GdsFrame GdsFrameProofs GdsModel GdsTrunc GdsRaw GdsRawProofs Generated.
 Local Open Scope N_scope.
 
 (* tie (generated): record codes at which the readers return, as in today's gdsii.hpp *)
@@ -67,3 +67,30 @@ Example c18_nonvacuous :
   status_until RT_ENDLIB [0;6;0;2;2;88; 0;4;4;0] = Ok (tt, [])
   /\ status_until RT_ENDLIB (firstn 9 [0;6;0;2;2;88; 0;4;4;0]) = ErrEof.
 Proof. split; vm_compute; reflexivity. Qed.
+
+(* the same for the DATA-level models of the full loader, the summary scan and the raw-cell loader: a cut file gives a
+   short-read error or exactly the complete file's library / summary / raw cells *)
+Theorem read_gds_truncated_thm : forall (f : option (list (Z * Z))) (bs : bytes) (l : glib) (n : nat), read_gds_model f bs = Ok l -> read_gds_model f (firstn n bs) = ErrEof \/ read_gds_model f (firstn n bs) = Ok l.
+Proof. exact (@read_gds_truncated_lemma). Qed.
+Print Assumptions read_gds_truncated_thm.
+
+Theorem read_gds_truncated_threshold_thm : forall (f : option (list (Z * Z))) (bs : bytes) (l : glib), read_gds_model f bs = Ok l -> exists k : nat, (k <= length bs)%nat /\ (forall n : nat, ((n < k)%nat -> read_gds_model f (firstn n bs) = ErrEof) /\ ((k <= n)%nat -> read_gds_model f (firstn n bs) = Ok l)).
+Proof. exact (@read_gds_truncated_threshold_lemma). Qed.
+Print Assumptions read_gds_truncated_threshold_thm.
+
+Theorem gds_info_truncated_thm : forall (bs : bytes) (i : ginfo) (n : nat), gds_info_model bs = Ok i -> gds_info_model (firstn n bs) = ErrEof \/ gds_info_model (firstn n bs) = Ok i.
+Proof. exact (@gds_info_truncated_lemma). Qed.
+Print Assumptions gds_info_truncated_thm.
+
+Theorem read_rawcells_truncated_thm : forall (bs : bytes) (res : rawres) (n : nat), read_rawcells_model bs = Ok res -> read_rawcells_model (firstn n bs) = ErrEof \/ read_rawcells_model (firstn n bs) = Ok res.
+Proof. exact (@read_rawcells_truncated_lemma). Qed.
+Print Assumptions read_rawcells_truncated_thm.
+
+Theorem read_gds_total_thm : forall (f : option (list (Z * Z))) (bs : bytes), read_gds_model f bs <> Hang.
+Proof. exact (@read_gds_total_lemma). Qed.
+Print Assumptions read_gds_total_thm.
+
+Theorem gds_info_total_thm : forall bs : bytes, gds_info_model bs <> Hang.
+Proof. exact (@gds_info_total_lemma). Qed.
+Print Assumptions gds_info_total_thm.
+
